@@ -91,7 +91,10 @@ def case_disc(draw):
         vals = [["int", repr(i + 1)] for i in range(k)]
     else:
         vals = [draw(st.sampled_from([["int", repr(i)], ["str", "'a'"], ["none", "None"], ["missing", ""], ["float", "nan"], ["float", repr(i + 0.5)], ["float", repr(float(i))]])) for i in range(k)]
-    return {"kind": "disc", "shape": shape, "vals": vals}
+    # class-level constants that are NOT dataclass fields (ClassVar / InitVar pseudo-fields)
+    extras = draw(st.lists(st.sampled_from(["classvar_int", "classvar_next_code", "classvar_str", "initvar", "classvar_zero_first"]),
+                           min_size=0, max_size=2, unique=True)) if draw(st.integers(0, 2)) == 0 else []
+    return {"kind": "disc", "shape": shape, "vals": vals, "extras": extras}
 
 
 def strategy(tier):
@@ -239,8 +242,24 @@ def check_disc(case):
         fields = [f for f in fields if len(f) == 3]
         vals = [v for v in vals if v[0] != "missing"]
     shape = case["shape"]
+    import typing
+
+    extra_fields = []
+    for e in case.get("extras", []):
+        if e == "classvar_int":
+            extra_fields.append(("n_categories", typing.ClassVar[int], 17))
+        elif e == "classvar_next_code":
+            extra_fields.append(("next_code", typing.ClassVar[int], len(fields)))
+        elif e == "classvar_str":
+            extra_fields.append(("label", typing.ClassVar[str], "status"))
+        elif e == "initvar" and all(len(f) == 3 for f in fields):
+            extra_fields.append(("scratch", dataclasses.InitVar[int], 5))
+    if "classvar_zero_first" in case.get("extras", []):
+        all_fields = [("version", typing.ClassVar[int], 0), *fields, *extra_fields]
+    else:
+        all_fields = [*fields, *extra_fields]
     if shape in ("dataclass", "instance"):
-        cat = dataclasses.make_dataclass("Cat", fields)
+        cat = dataclasses.make_dataclass("Cat", all_fields)
         if shape == "instance":
             try:
                 cat = cat(**{f[0]: 0 for f in fields if len(f) == 2})
